@@ -184,19 +184,36 @@ def audit(prop: str):
     return res, out
 
 
-def hygiene():
-    bad = []
-    for root, _, files in os.walk(LEAN):
-        if '.lake' in root:
+def import_closure(roots):
+    """Lean source files of this project reachable from the given module names through `import` lines."""
+    seen, todo = {}, list(roots)
+    while todo:
+        mod = todo.pop()
+        if mod in seen:
             continue
-        for f in files:
-            if f.endswith('.lean'):
-                p = os.path.join(root, f)
-                src = strip_lean_comments(open(p).read())
-                # strings may legitimately contain words; drop string literals
-                src = re.sub(r'"(\\.|[^"\\])*"', '""', src)
-                for m in FORBIDDEN.finditer(src):
-                    bad.append(f'{os.path.relpath(p, LEAN)}: {m.group(0).strip()}')
+        path = os.path.join(LEAN, *mod.split('.')) + '.lean'
+        if not os.path.exists(path):
+            continue
+        seen[mod] = path
+        for m in re.finditer(r'^\s*(?:public\s+)?import\s+([A-Za-z0-9_\.]+)', open(path).read(), re.M):
+            if m.group(1).split('.')[0] in ('SdcModel', 'Driver'):
+                todo.append(m.group(1))
+    return seen
+
+
+def hygiene(roots=None):
+    """Forbidden constructs in the Lean files the property depends on (all project files when roots is None)."""
+    bad = []
+    if roots is None:
+        files = [os.path.join(r, f) for r, _, fs in os.walk(LEAN) if '.lake' not in r for f in fs if f.endswith('.lean')]
+    else:
+        files = list(import_closure(roots).values())
+    for p in sorted(files):
+        src = strip_lean_comments(open(p).read())
+        # strings may legitimately contain words; drop string literals
+        src = re.sub(r'"(\\.|[^"\\])*"', '""', src)
+        for m in FORBIDDEN.finditer(src):
+            bad.append(f'{os.path.relpath(p, LEAN)}: {m.group(0).strip()}')
     return bad
 
 
@@ -287,7 +304,7 @@ def run_check(mod, prop, tier, seed):
                 ctx.proof_problems.append(f'audit: theorem {n} depends on {a}')
             else:
                 ctx.discharged += 1
-    bad = hygiene()
+    bad = hygiene([f'SdcModel.Properties.{prop}'] + ['Driver.' + d.split('_')[1].upper() for d in getattr(mod, 'DRIVERS', [])])
     if bad:
         ctx.proof_problems.append('hygiene: ' + '; '.join(bad[:10]))
     if tier == 'thorough' and ok:
@@ -348,7 +365,7 @@ def finish(ctx: Ctx, mod):
           f'oracle_failures={len(ctx.failures)} proof_problems={len(ctx.proof_problems)} wall={dt:.1f}s')
     if ctx.proof_problems:
         for p in ctx.proof_problems:
-            print('  problem:', p[:600].replace('\n', ' | '))
+            print('  problem:', p[-1800:].replace('\n', ' | '))
     for d in ctx.disagreements[:3]:
         print('  disagreement:', json.dumps(d, default=str)[:600])
     return 1 if violations else 0
